@@ -1,0 +1,416 @@
+//go:build verif
+
+// Package verifhook exposes internal packages of ysgo to the verification harness kept outside of this repository.
+// It is only compiled when the build tag "verif" is set and contains no logic of its own.
+package verifhook
+
+import (
+	"fmt"
+	"math"
+	"sort"
+	"strconv"
+	"strings"
+
+	"github.com/antlr4-go/antlr/v4"
+
+	"github.com/remieven/ysgo/internal/container"
+	"github.com/remieven/ysgo/internal/parser"
+	"github.com/remieven/ysgo/internal/tree"
+	"github.com/remieven/ysgo/variable"
+)
+
+// ContainerOp is one operation on a queue or a stack: Kind is one of enq, deq, peek, size (queue) or
+// push, pushall, pop, peek, size, clear (stack).
+type ContainerOp struct {
+	Kind   string
+	Values []int
+}
+
+func guarded(f func() string) (result string) {
+	defer func() {
+		if r := recover(); r != nil {
+			result = "panic"
+		}
+	}()
+	return f()
+}
+
+// QueueRun applies the operations to a fresh container.Queue and returns one observation per operation,
+// followed by the raw state (capacity, first, next) after it.
+func QueueRun(ops []ContainerOp) []string {
+	q := container.Queue[int]{}
+	results := make([]string, 0, len(ops))
+	for _, op := range ops {
+		r := guarded(func() string {
+			switch op.Kind {
+			case "enq":
+				q.Enqueue(op.Values[0])
+				return "ok"
+			case "deq":
+				return strconv.Itoa(q.Dequeue())
+			case "peek":
+				return strconv.Itoa(q.Peek())
+			case "size":
+				return strconv.Itoa(q.Size())
+			}
+			return "bad-op"
+		})
+		c, f, n := q.VerifState()
+		results = append(results, fmt.Sprintf("%s@%d,%d,%d", r, c, f, n))
+	}
+	return results
+}
+
+// StackRun applies the operations to a fresh container.Stack and returns one observation per operation.
+func StackRun(ops []ContainerOp) []string {
+	s := container.Stack[int]{}
+	results := make([]string, 0, len(ops))
+	for _, op := range ops {
+		r := guarded(func() string {
+			switch op.Kind {
+			case "push":
+				s.Push(op.Values[0])
+				return "ok"
+			case "pushall":
+				s.PushAll(op.Values...)
+				return "ok"
+			case "pop":
+				return strconv.Itoa(s.Pop())
+			case "peek":
+				return strconv.Itoa(s.Peek())
+			case "size":
+				return strconv.Itoa(s.Size())
+			case "clear":
+				s.Clear()
+				return "ok"
+			}
+			return "bad-op"
+		})
+		results = append(results, r)
+	}
+	return results
+}
+
+// Token is one token as produced by the indentation aware lexer.
+type Token struct {
+	Type    string
+	Channel int
+	Text    string
+}
+
+type countingErrorListener struct {
+	*antlr.DefaultErrorListener
+	count int
+}
+
+func (l *countingErrorListener) SyntaxError(_ antlr.Recognizer, _ interface{}, _, _ int, _ string, _ antlr.RecognitionException) {
+	l.count++
+}
+
+// Tokens returns the tokens the lexer produces for the input, up to and including the first EOF (at most limit tokens),
+// the number of errors the lexer reported, and whether the lexer panicked.
+func Tokens(input string, limit int) (tokens []Token, lexerErrors int, panicked bool) {
+	defer func() {
+		if r := recover(); r != nil {
+			panicked = true
+		}
+	}()
+	lexer := parser.NewYarnSpinnerLexer(antlr.NewInputStream(input))
+	listener := &countingErrorListener{}
+	lexer.RemoveErrorListeners()
+	lexer.AddErrorListener(listener)
+	names := lexer.GetSymbolicNames()
+	for len(tokens) < limit {
+		token := lexer.NextToken()
+		if token == nil {
+			tokens = append(tokens, Token{Type: "<nil>"})
+			break
+		}
+		name := "EOF"
+		if t := token.GetTokenType(); t >= 0 && t < len(names) {
+			name = names[t]
+		} else if t != antlr.TokenEOF {
+			name = strconv.Itoa(t)
+		}
+		tokens = append(tokens, Token{Type: name, Channel: token.GetChannel(), Text: token.GetText()})
+		if token.GetTokenType() == antlr.TokenEOF {
+			break
+		}
+	}
+	return tokens, listener.count, false
+}
+
+// SyntaxErrors parses the input with a fresh lexer and parser of the grammar and returns the number of syntax errors
+// reported to an independent error listener, without building a dialogue.
+func SyntaxErrors(input string) (count int, panicked bool) {
+	defer func() {
+		if r := recover(); r != nil {
+			panicked = true
+		}
+	}()
+	listener := &countingErrorListener{}
+	lexer := parser.NewYarnSpinnerLexer(antlr.NewInputStream(input))
+	lexer.RemoveErrorListeners()
+	lexer.AddErrorListener(listener)
+	p := parser.NewYarnSpinnerParser(antlr.NewCommonTokenStream(lexer, antlr.LexerDefaultTokenChannel))
+	p.RemoveErrorListeners()
+	p.AddErrorListener(listener)
+	p.Dialogue()
+	return listener.count, false
+}
+
+// Rearrange runs the command statement rearrangement on raw command elements: a text element is given as its text,
+// an expression element as the empty string (it is kept in place and dumped as (hole)).
+func Rearrange(elements []string) string {
+	return DumpStatement(tree.VerifRearrange(elements))
+}
+
+// DumpDialogue parses the inputs like NewDialogueRunner does and returns a canonical S-expression of the dialogue.
+func DumpDialogue(inputs ...string) (dump string, err error) {
+	defer func() {
+		if r := recover(); r != nil {
+			err = fmt.Errorf("panic: %v", r)
+		}
+	}()
+	dialogue, err := tree.VerifFromStrings(inputs...)
+	if err != nil {
+		return "", err
+	}
+	var b strings.Builder
+	b.WriteString("(prog")
+	for i := range dialogue.Nodes {
+		node := &dialogue.Nodes[i]
+		b.WriteString(" (node ")
+		dumpString(&b, node.Title())
+		b.WriteString(" ")
+		dumpString(&b, node.Headers["tracking"])
+		b.WriteString(" (headers")
+		keys := make([]string, 0, len(node.Headers))
+		for k := range node.Headers {
+			keys = append(keys, k)
+		}
+		sort.Strings(keys)
+		for _, k := range keys {
+			b.WriteString(" (")
+			dumpString(&b, k)
+			b.WriteString(" ")
+			dumpString(&b, node.Headers[k])
+			b.WriteString(")")
+		}
+		b.WriteString(") ")
+		dumpStatements(&b, node.Statements)
+		b.WriteString(")")
+	}
+	b.WriteString(")")
+	return b.String(), nil
+}
+
+// DumpStatement returns the canonical S-expression of one statement.
+func DumpStatement(statement *tree.Statement) string {
+	var b strings.Builder
+	dumpStatement(&b, statement)
+	return b.String()
+}
+
+func dumpString(b *strings.Builder, s string) {
+	b.WriteString("(s")
+	for _, r := range s {
+		b.WriteString(" ")
+		b.WriteString(strconv.Itoa(int(r)))
+	}
+	b.WriteString(")")
+}
+
+func dumpStatements(b *strings.Builder, statements []*tree.Statement) {
+	b.WriteString("(stmts")
+	for _, statement := range statements {
+		b.WriteString(" ")
+		dumpStatement(b, statement)
+	}
+	b.WriteString(")")
+}
+
+func dumpLine(b *strings.Builder, line *tree.LineStatement) {
+	b.WriteString("(line (els")
+	if line != nil && line.Text != nil {
+		for _, element := range line.Text.Elements {
+			if element.Text != "" {
+				b.WriteString(" (t ")
+				dumpString(b, element.Text)
+				b.WriteString(")")
+			} else if element.Expression != nil {
+				b.WriteString(" (e ")
+				dumpExpression(b, element.Expression)
+				b.WriteString(")")
+			} else {
+				b.WriteString(" (empty)")
+			}
+		}
+	}
+	b.WriteString(") (cond ")
+	if line != nil && line.Condition != nil {
+		dumpExpression(b, line.Condition)
+	} else {
+		b.WriteString("(none)")
+	}
+	b.WriteString(") (tags")
+	if line != nil {
+		for _, tag := range line.Tags {
+			b.WriteString(" ")
+			dumpString(b, tag)
+		}
+	}
+	b.WriteString("))")
+}
+
+var inPlaceOperatorNames = map[int]string{
+	tree.AssignmentInPlaceOperator:     "set",
+	tree.MultiplicationInPlaceOperator: "mul",
+	tree.DivisionInPlaceOperator:       "div",
+	tree.ModuloInPlaceOperator:         "mod",
+	tree.AdditionInPlaceOperator:       "add",
+	tree.SubtractionInPlaceOperator:    "sub",
+}
+
+var binaryOperatorNames = map[int]string{
+	tree.MultiplicationBinaryOperator:    "mul",
+	tree.DivisionBinaryOperator:          "div",
+	tree.ModuloBinaryOperator:            "mod",
+	tree.AdditionBinaryOperator:          "add",
+	tree.SubtractionBinaryOperator:       "sub",
+	tree.LessThanEqualsBinaryOperator:    "le",
+	tree.GreaterThanEqualsBinaryOperator: "ge",
+	tree.LessBinaryOperator:              "lt",
+	tree.GreaterBinaryOperator:           "gt",
+	tree.EqualsBinaryOperator:            "eq",
+	tree.NotEqualsBinaryOperator:         "ne",
+	tree.AndBinaryOperator:               "and",
+	tree.OrBinaryOperator:                "or",
+	tree.XorBinaryOperator:               "xor",
+}
+
+func dumpStatement(b *strings.Builder, statement *tree.Statement) {
+	switch {
+	case statement == nil:
+		b.WriteString("(nil)")
+	case statement.LineStatement != nil:
+		dumpLine(b, statement.LineStatement)
+	case statement.ShortcutOptionStatement != nil:
+		b.WriteString("(opts")
+		for _, option := range statement.ShortcutOptionStatement.Options {
+			b.WriteString(" (opt ")
+			dumpLine(b, option.LineStatement)
+			b.WriteString(" ")
+			dumpStatements(b, option.Statements)
+			b.WriteString(")")
+		}
+		b.WriteString(")")
+	case statement.SetStatement != nil:
+		b.WriteString("(set ")
+		dumpString(b, statement.SetStatement.VariableID)
+		name, ok := inPlaceOperatorNames[statement.SetStatement.InPlaceOperator]
+		if !ok {
+			name = "unknown"
+		}
+		b.WriteString(" " + name + " ")
+		dumpExpression(b, statement.SetStatement.Expression)
+		b.WriteString(")")
+	case statement.JumpStatement != nil:
+		b.WriteString("(jump ")
+		dumpExpression(b, statement.JumpStatement.Expression)
+		b.WriteString(")")
+	case statement.IfStatement != nil:
+		b.WriteString("(if")
+		for _, clause := range statement.IfStatement.Clauses {
+			b.WriteString(" (clause ")
+			dumpExpression(b, clause.Condition)
+			b.WriteString(" ")
+			dumpStatements(b, clause.Statements)
+			b.WriteString(")")
+		}
+		b.WriteString(")")
+	case statement.CommandStatement != nil:
+		b.WriteString("(cmd")
+		for _, element := range statement.CommandStatement.Elements {
+			b.WriteString(" ")
+			dumpExpression(b, element.Expression)
+		}
+		b.WriteString(")")
+	case statement.CallStatement != nil:
+		b.WriteString("(call ")
+		if statement.CallStatement.FunctionCall == nil {
+			b.WriteString("(nil)")
+		} else {
+			dumpString(b, statement.CallStatement.FunctionID)
+			for _, argument := range statement.CallStatement.Arguments {
+				b.WriteString(" ")
+				dumpExpression(b, argument)
+			}
+		}
+		b.WriteString(")")
+	case statement.DeclareStatement != nil:
+		b.WriteString("(declare ")
+		dumpString(b, statement.DeclareStatement.VariableID)
+		b.WriteString(" ")
+		dumpExpression(b, statement.DeclareStatement.Value)
+		b.WriteString(")")
+	default:
+		b.WriteString("(empty)")
+	}
+}
+
+func dumpValue(b *strings.Builder, value *variable.Value) {
+	switch {
+	case value.Number != nil:
+		b.WriteString("(num " + strconv.FormatUint(math.Float64bits(*value.Number), 10) + ")")
+	case value.Boolean != nil:
+		b.WriteString("(bool " + strconv.FormatBool(*value.Boolean) + ")")
+	case value.String != nil:
+		b.WriteString("(str ")
+		dumpString(b, *value.String)
+		b.WriteString(")")
+	default:
+		b.WriteString("(novalue)")
+	}
+}
+
+func dumpExpression(b *strings.Builder, e *tree.Expression) {
+	switch {
+	case e == nil:
+		b.WriteString("(hole)")
+	case e.VariableID != nil:
+		b.WriteString("(var ")
+		dumpString(b, *e.VariableID)
+		b.WriteString(")")
+	case e.FunctionCall != nil:
+		b.WriteString("(fn ")
+		dumpString(b, e.FunctionCall.FunctionID)
+		for _, argument := range e.FunctionCall.Arguments {
+			b.WriteString(" ")
+			dumpExpression(b, argument)
+		}
+		b.WriteString(")")
+	case e.Value != nil:
+		dumpValue(b, e.Value)
+	case e.NegativeExpression != nil:
+		b.WriteString("(neg ")
+		dumpExpression(b, e.NegativeExpression)
+		b.WriteString(")")
+	case e.NotExpression != nil:
+		b.WriteString("(not ")
+		dumpExpression(b, e.NotExpression)
+		b.WriteString(")")
+	case e.Operator != nil:
+		name, ok := binaryOperatorNames[*e.Operator]
+		if !ok {
+			name = "unknown"
+		}
+		b.WriteString("(bin " + name + " ")
+		dumpExpression(b, e.LeftOperand)
+		b.WriteString(" ")
+		dumpExpression(b, e.RightOperand)
+		b.WriteString(")")
+	default:
+		b.WriteString("(null)")
+	}
+}
